@@ -64,6 +64,9 @@ def run_c19(sc):
         if got != exp:
             return False, 'step %d (%s): spy %s, the processor invoked %s' % (k, st['sig'], got, exp), '_spy_on'
         full += st['rtc_spy']
+        if st.get('cleared'):
+            full = []                   # clear_spy() was called right after this step was observed
+            continue
         got_full = st['full_spy']
         if got_full != full[-500:]:
             return False, 'step %d: full spy is not the concatenation of the step logs' % k, 'spy/full'
@@ -76,11 +79,14 @@ def run_c20(sc):
     steps, chart = charts.run_instrumented(sc)
     cur, _ = charts.expected_start(sc)
     exp = [('top', None, 'st%d' % cur)]
+    if steps[0].get('cleared'):
+        exp = []
     for k, sg in enumerate(sc['events']):
         new, log, offers, outcome = charts.expected_step(sc, cur, sg)
         if outcome == 'tran':
             exp.append(('st%d' % cur, sg, 'st%d' % new))
         cur = new
+        exp = exp[-500:]                    # the trace keeps the most recent records
         got = [(t.start_state, t.signal, t.end_state) for t in steps[k + 1]['trace']]
         if got != exp:
             return False, 'after event #%d %s (%s): trace %s, expected %s' % (k, sg, outcome, got[-3:], exp[-3:]), 'trace'
